@@ -124,9 +124,20 @@ func runC14(r *Run, p *Prog) {
 			pcR := NewPathCounter(p, isResetCall)
 			lo, hi := pcR.Summary(cl)
 			r.Ob("L1", fn, "the deferred closure resets the state exactly once on every path", cl.Pos(), lo == 1 && hi == 1, fmt.Sprintf("reset executed between %d and %d times", lo, hi))
+			// (the deferred function may be a method taking the WaitGroup as an argument: `defer s.finish(&wg)`)
+			wgInCallee := strip(wgT)
+			for i, arg := range d0.Call.Args {
+				if wgT != "" && strip(T.T(arg)) == strip(wgT) && i < len(cl.Params) {
+					wgInCallee = strip(T.T(cl.Params[i]))
+				}
+			}
 			isWait := func(in ssa.Instruction) bool {
 				c, ok := in.(*ssa.Call)
-				return ok && calleeName(&c.Call) == "sync.WaitGroup.Wait" && strip(T.T(c.Call.Args[0])) == strip(wgT)
+				if !ok || calleeName(&c.Call) != "sync.WaitGroup.Wait" {
+					return false
+				}
+				t := strip(T.T(c.Call.Args[0]))
+				return t == strip(wgT) || t == wgInCallee
 			}
 			// Wait after the reset on every path
 			var resetCall ssa.Instruction
